@@ -2,13 +2,13 @@ SPECIFICATION Spec
 CONSTANTS
   Queries = {"q1"}
   Reps = {"r1", "r2"}
-  Sels = {"s1"}
+  Sels = {"s1", "s2"}
   Powers = {1, 2, 3}
   Rates = {0, 5, 10}
-  Stakes = {1, 2}
-  TipAmounts = {49, 100}
+  Stakes = {1, 2, 3}
+  TipAmounts = {7, 49, 100, 33}
   MaxTips = 2
-  MaxPayouts = 2
+  MaxPayouts = 1
   E24 <- MC_E24
   E18 <- MC_E18
 INVARIANTS OracleAccountEqualsOpenTips EscrowPoolCoversCredits NothingLost LastPayoutSplitsExactly
